@@ -26,6 +26,125 @@ ANN_FORMS = {
 }
 
 
+RAW_ALPHABET = 'C[]$()=1'
+
+
+def raw_reference(text):
+    """Spec-side reading of a *concrete* raw string over RAW_ALPHABET.  Returns None when the string is not a fragment
+    text of the claim (not a valid SMILES with descriptors inserted after atoms / leading), else (clean text,
+    {atom: [descriptor strings]}).  Rules (docs/source/syntax/fragments.rst): a descriptor is '[$label]'; a leading
+    descriptor may be followed by its order symbol, any other descriptor may be preceded by it; a descriptor refers to
+    the atom it is written after (after that atom's ring digits, after further descriptors, or after a closed branch of
+    that atom); an order symbol in front of a ring digit or an atom is an ordinary bond symbol."""
+    n = len(text)
+    i = 0
+    clean = ''
+    desc = {}
+    natoms = 0
+    prev = None
+    stack = []
+
+    def read_desc(j):
+        # text[j] == '[' and text[j+1] == '$'
+        k = text.find(']', j)
+        if k < 0:
+            return None
+        label = text[j + 2:k]
+        if any(c not in 'C1' for c in label):
+            return None
+        return label, k + 1
+    # leading descriptors
+    while i + 1 < n and text[i] == '[' and text[i + 1] == '$':
+        r = read_desc(i)
+        if r is None:
+            return None
+        label, i = r
+        order = '1'
+        if i < n and text[i] == '=':
+            order = '2'
+            i += 1
+        desc.setdefault(0, []).append('$' + label + order)
+    if i >= n:
+        return None
+    last = 'start'          # kind of the previous structural token
+    while i < n:
+        c = text[i]
+        if c == 'C':
+            prev = natoms
+            natoms += 1
+            clean += 'C'
+            last = 'atom'
+            i += 1
+        elif c == '[':
+            if i + 1 < n and text[i + 1] == '$':
+                if prev is None or last in ('open', 'bond', 'start'):
+                    return None
+                r = read_desc(i)
+                if r is None:
+                    return None
+                label, i = r
+                desc.setdefault(prev, []).append('$' + label + '1')
+                last = 'desc'
+            elif text[i:i + 3] == '[C]':
+                prev = natoms
+                natoms += 1
+                clean += '[C]'
+                last = 'atom'
+                i += 3
+            else:
+                return None
+        elif c == '=':
+            if i + 2 < n and text[i + 1] == '[' and text[i + 2] == '$':
+                # order symbol of the following descriptor
+                if prev is None or last in ('open', 'bond', 'start'):
+                    return None
+                r = read_desc(i + 1)
+                if r is None:
+                    return None
+                label, i = r
+                desc.setdefault(prev, []).append('$' + label + '2')
+                last = 'desc'
+            else:
+                if last in ('open', 'bond', 'start') and not (last == 'open'):
+                    return None
+                clean += '='
+                last = 'bond'
+                i += 1
+        elif c == '(':
+            if prev is None or last in ('open', 'bond', 'start'):
+                return None
+            stack.append(prev)
+            clean += '('
+            last = 'open'
+            i += 1
+        elif c == ')':
+            if not stack or last in ('open', 'bond'):
+                return None
+            prev = stack.pop()
+            clean += ')'
+            last = 'close'
+            i += 1
+        elif c == '1':
+            if prev is None or last in ('open', 'start', 'close', 'desc'):
+                return None          # ring digits directly follow their atom (or its ring bond symbol)
+            clean += '1'
+            last = 'ring'
+            i += 1
+        else:
+            return None
+    if stack or last in ('bond', 'open'):
+        return None
+    try:
+        import pysmiles
+        import logging
+        mol = pysmiles.read_smiles(clean, explicit_hydrogen=False, reinterpret_aromatic=False, strict=False)
+        if len(mol) != natoms:
+            return None
+    except Exception:
+        return None
+    return clean, desc
+
+
 def insertion_points(toks):
     """('lead',) ; ('atom', k) directly after atom k ; ('ring', k) after the last ring digit of atom k"""
     pts = [('lead', 0)]
@@ -58,12 +177,12 @@ class C13(core.Prop):
                    'a descriptor is inserted directly after an atom, after that atom\'s ring digits, after a closed branch of that atom, or leads the text; '
                    'a non-leading descriptor carries its order symbol in front, a leading one behind (docs: fragments.rst, Valency)',
                    'numeric annotation values have the spelling d.d; free values are 2 alnum characters']
-    OUTSIDE = ['descriptors written inside their own parentheses',
-               'fully symbolic strings (only skeleton x holes here)', 'the aromatic bond symbol ":" as descriptor order']
+    OUTSIDE = ['descriptors written inside their own parentheses', 'raw strings longer than the bound or over a larger alphabet',
+               'the aromatic bond symbol ":" as descriptor order']
     BOUNDS = {
-        'quick': '%d skeletons (<= 6 atoms: chains, branches, rings incl. %%nn, Cl/Br, bracket and coarse atoms, slashes) x every '
+        'quick': 'raw strings of length <= 4 over C [ ] $ ( ) = 1 against a spec-side reference reader; %d skeletons (<= 6 atoms: chains, branches, rings incl. %%nn, Cl/Br, bracket and coarse atoms, slashes) x every '
                  'single insertion point x 1-2 descriptors (label length 0-2, with/without order symbol) + annotation forms on bracket atoms' % len(SKELETONS_Q),
-        'thorough': '%d skeletons (<= 8 atoms) x every single insertion point x 1-3 descriptors + every pair of insertion points + annotations' % len(SKELETONS_T),
+        'thorough': 'raw strings of length <= 6; %d skeletons (<= 8 atoms) x every single insertion point x 1-3 descriptors + every pair of insertion points + annotations' % len(SKELETONS_T),
     }
     LEVEL_TEXT = ('Bounded: per skeleton and insertion pattern z3 decides on every path of the real strip_bonding_descriptors source '
                   'that clean text, descriptor lists per atom (kind, label, order), slash marks and annotations equal the constructed '
@@ -96,10 +215,29 @@ class C13(core.Prop):
                 for form in ANN_FORMS:
                     out.append({'skel': sk, 'ins': [[['atom', a], [[1, 's']]]], 'ann': {str(a): form}})
         out.append({'skel': 'CCO', 'ins': [], 'ann': {}})
+        # raw strings (no skeleton): every string of length <= L over RAW_ALPHABET, split by the first two characters
+        L = 4 if tier == 'quick' else 6
+        for n in range(1, L + 1):
+            if n == 1:
+                out.append({'mode': 'raw', 'len': 1, 'head': ''})
+            else:
+                for a in RAW_ALPHABET:
+                    for b in RAW_ALPHABET:
+                        if n >= 6:
+                            for c in RAW_ALPHABET:
+                                out.append({'mode': 'raw', 'len': n, 'head': a + b + c})
+                        else:
+                            out.append({'mode': 'raw', 'len': n, 'head': a + b})
         return out
 
     # -- build the text and the expectation together ---------------------
+    ALLOW_VACUOUS = True     # raw mode: a head may admit no string of the claim's grammar
+
     def build(self, shape):
+        if shape.get('mode') == 'raw':
+            head = shape['head']
+            rest = [sym_char('r%d' % k, allowed=RAW_ALPHABET) for k in range(shape['len'] - len(head))]
+            return {'text': cat(head, rest)}
         holes = {'desc': {}, 'ann': {}}
         for ii, (pt, descs) in enumerate(shape['ins']):
             hs = []
@@ -191,6 +329,19 @@ class C13(core.Prop):
         return r
 
     def oracle(self, shape, inp, obs):
+        if shape.get('mode') == 'raw':
+            text = symx.concretize_str(inp['text'])       # the oracle decides per concrete string (forks over the characters)
+            ref = raw_reference(text)
+            if ref is None:
+                raise symx.PathAbort()                    # not a fragment text of the claim
+            if obs[0] != 'ok':
+                return [('accepted', False)]
+            smile, bonding, ez, attrs = obs[1]
+            clean, desc = ref
+            cl = [('accepted', True), ('clean_text', smile == clean)]
+            got = {k: sorted(v) for k, v in bonding.items() if v}
+            cl.append(('descriptors', got == {k: sorted(v) for k, v in desc.items()}))
+            return cl
         if obs[0] != 'ok':
             return [('accepted', False)]
         smile, bonding, ez, attrs = obs[1]
@@ -226,7 +377,11 @@ class C13(core.Prop):
                 same_len = len(bonding[a]) == len(exp[a])
                 cl.append(('descriptor_count', same_len))
                 if same_len:
-                    cl.append(('descriptor_values', band(*[g == e for g, e in zip(bonding[a], exp[a])])))
+                    # same descriptors on the atom (multiset: the property does not fix the order inside the list)
+                    import itertools
+                    from ..symx import bor
+                    cl.append(('descriptor_values', bor(*[band(*[g == exp[a][i] for g, i in zip(bonding[a], p)])
+                                                          for p in itertools.permutations(range(len(exp[a])))])))
         # slash marks: a mark between the previous atom p and the next atom n is stored on both
         exp_ez = {}
         natoms = 0
